@@ -472,6 +472,12 @@ class UserManager(BaseManager):
             self.reset_users()
 
     async def _on_session_initialized(self, event: SessionInitializedEvent):
+        # The server connection can get lost while the other listeners are
+        # handling this event: the session has already been destroyed then and
+        # nothing should be set up for it anymore
+        if self._network.server_connection.state != ConnectionState.CONNECTED:
+            return
+
         self._session = event.session
         await self._network.send_server_messages(
             CheckPrivileges.Request(),
